@@ -9,6 +9,8 @@ pub fn units(tier: &str, _seed: u64) -> Vec<String> {
         "1/U:ACS:ELECTRICIDAD;1/U:ACS:EAMBIENTE;2/U:CAL:EAMBIENTE;2/P:EAMBIENTE",
         "1/U:CAL:GASNATURAL;1/U:ACS:GASNATURAL;1/X;1/~O:CAL;1/~O:ACS;2/U:REF:ELECTRICIDAD;2/X",
         "U:ILU:ELECTRICIDAD;P:EL_INSITU;P:EL_COGEN;U:COGEN:GASNATURAL;U:NEPB:ELECTRICIDAD",
+        // two systems drawing ambient heat, one of them for two services: every interleaving of their lines
+        "1/U:CAL:EAMBIENTE;1/U:ACS:EAMBIENTE;2/U:CAL:EAMBIENTE",
     ];
     let mut v = vec![];
     for s in shapes {
@@ -18,7 +20,8 @@ pub fn units(tier: &str, _seed: u64) -> Vec<String> {
             // every line is split once (shapes with auxiliaries: an AUX line split in two must not matter either)
             for j in 0..nl {
                 // quick tier: the first two lines and every auxiliary line; all lines in the thorough tier
-                if tier == "thorough" || j < 2 || s.split(';').nth(j).map(|x| x.ends_with("/X")).unwrap_or(false) {
+                // (shapes without auxiliaries are cheap: all their lines)
+                if tier == "thorough" || j < 2 || !s.contains("/X") || s.split(';').nth(j).map(|x| x.ends_with("/X")).unwrap_or(false) {
                     r.push(format!("split:{}", j));
                 }
             }
